@@ -31,7 +31,7 @@ def tables(ctx):
     # validation: operator -> minimum operand count
     need = {}
     vb = None
-    for b in db.find_bodies(r'^' + re.escape(EF) + r'validate_where_clause::\{closure#\d+\}$'):
+    for b in db.find_bodies(r'^' + re.escape(EF) + r'validate_where_clause(::\{closure#\d+\})*$'):
         arms = variant_arms(ctx, b, 'FilterOperator')
         if arms:
             vb = b
@@ -166,19 +166,22 @@ def validation_gate(ctx):
                 r.ok(rule, 'modify:validate-before-install', 'a new event filter replaces the current one only after event_filter::validate succeeded', loc=mb.loc)
             else:
                 r.fail(rule, 'modify:validate-before-install', 'ModifyMonitoredItems installs the new filter before (or without) validating it', loc=mb.loc)
-    sb = db.body('server::subscriptions::subscription::Subscription::create_monitored_items')
-    cls = db.find_bodies(r'^server::subscriptions::subscription::Subscription::create_monitored_items::\{closure#\d+\}$')
+    # who-may-register: every insertion into a subscription's monitored_items map, wherever it is written
+    cls = [b_ for b_ in db.find_bodies(r'^server::subscriptions::') if not re.search(r'::tests?::', b_.path)]
     done = False
     for cb in cls:
+        if not any(re.search(r'(HashMap|BTreeMap)::insert$', c.callee) for c in cb.calls()):
+            continue
         F = ctx.facts(cb)
-        ins = [c for c in cb.calls() if re.search(r'(HashMap|BTreeMap)::insert$', c.callee) and 'monitored_items' in fmt_sym(cb, F.sym_operand(c.args[0]))]
-        for c in ins:
+        ins = [c for c in cb.calls() if re.search(r'(HashMap|BTreeMap)::insert$', c.callee) and re.search(r'[._]monitored_items(\(_[\d.]+\))?$', fmt_sym(cb, F.sym_operand(c.args[0])))]
+        for i_, c in enumerate(ins):
             done = True
             lits = F.literals_at(c.bb)
+            key = 'create:validate-before-register' + ('' if cb.path.endswith('create_monitored_items::{closure#0}') else '@' + cb.path.rsplit('::', 1)[-1] + ('#%d' % i_ if i_ else ''))
             if any(l[0] == 'variant' and l[2] == 'Ok' and l[3] and 'validate_filter' in fmt_sym(cb, l[1]) for l, e in lits):
-                r.ok(rule, 'create:validate-before-register', 'a monitored item is registered only on the Ok edge of validate_filter', loc=c.loc)
+                r.ok(rule, key, 'a monitored item is registered only on the Ok edge of validate_filter', loc=c.loc)
             else:
-                r.fail(rule, 'create:validate-before-register', 'a monitored item is registered without its filter having passed validation', loc=c.loc)
+                r.fail(rule, key, 'a monitored item is registered without its filter having passed validation', loc=c.loc)
     if not done:
         r.lost(rule, 'create', 'registration of monitored items not found')
 
